@@ -659,6 +659,7 @@ impl UdpNet {
             peer: None,
             faults: DgramFaults::default(),
             send_error_next: Arc::new(Mutex::new(0)),
+            spurious: Arc::new(Mutex::new((false, false))),
         }
     }
 
@@ -713,9 +714,17 @@ pub struct DgSock {
     pub peer: Option<SocketAddr>,
     pub faults: DgramFaults,
     send_error_next: Arc<Mutex<u32>>,
+    /// (enabled, the next try_recv reports WouldBlock): false-positive
+    /// readiness, which the `AsyncDgramSock` contract allows.
+    spurious: Arc<Mutex<(bool, bool)>>,
 }
 
 impl DgSock {
+    /// Let `readable()` report readiness falsely now and then.
+    pub fn spurious_readiness(&self, on: bool) {
+        self.spurious.lock().unwrap().0 = on;
+    }
+
     pub fn connected(mut self, peer: SocketAddr) -> Self {
         self.peer = Some(peer);
         self
@@ -846,11 +855,19 @@ impl domain::net::server::sock::AsyncDgramSock for DgSock {
     fn readable(&self) -> Pin<Box<dyn Future<Output = io::Result<()>> + '_ + Send>> {
         Box::pin(async move {
             std::future::poll_fn(|cx| self.poll_readable(cx)).await;
+            let on = self.spurious.lock().unwrap().0;
+            if on && sim::chance("net.spurious_ready", 1, 6) {
+                sim::stat("fault.dgram_spurious_readiness");
+                self.spurious.lock().unwrap().1 = true;
+            }
             Ok(())
         })
     }
 
     fn try_recv_buf_from(&self, buf: &mut ReadBuf<'_>) -> io::Result<(usize, SocketAddr)> {
+        if std::mem::take(&mut self.spurious.lock().unwrap().1) {
+            return Err(io::Error::new(io::ErrorKind::WouldBlock, "false-positive readiness"));
+        }
         match self.try_recv_from() {
             Some((d, from)) => {
                 let n = d.len().min(buf.remaining());
